@@ -177,14 +177,15 @@ def _dispatch_scope(field, exp, got, info):
 # specification with the shared pipeline of checks/core_common.py
 DISPATCH = dict(
     sig="dispatch", scope=_dispatch_scope, merge=True,
-    sc=dict(family="dispatch", n=(100, 1200), mc=dict(max_calls=12, max_polls=2, after_end=0), mc_thorough=dict(max_calls=14),
+    sc=dict(family="dispatch", n=(50, 800), mc=dict(max_calls=11, max_polls=2, after_end=0, max_rebinds=1), mc_thorough=dict(max_calls=13),
             invariants=["FlowRefinesSem", "PendingNextIsNoOp"]),
-    cs=[dict(family="dispatch", n=(40, 500), paths=(3, 5), calls=40,
+    cs=[dict(family="dispatch", n=(40, 500), paths=(3, 5), calls=40, rebinds=True,
              label="YarnTrace: command statements dispatched repeatedly, pending at the head of option bodies")],
     nontrivial=lambda c: sum(1 for b in c["bodies"] for s in b if s["k"] == "cmd" and len(s["elems"]) > 1) >= 2,
     rule="programs of the dispatch family (the start node runs three times; most statements are commands, also first in option bodies; "
          "elements that read no variable but change between dispatches: visited / visited_count / a host function that writes a "
-         "variable; in half of the programs the host registers a handler under `wait`): every completion schedule and choice path "
+         "variable; in half of the programs the host registers a handler under `wait`; between two calls the host may register a "
+         "command that was unknown or replace a registered one): every completion schedule, choice path and registration point "
          "enumerated by TLC and replayed, random walks trace-validated; judged: the handler invocation log of every call and the "
          "results around pending commands; non-trivial = at least two commands with arguments",
 )
